@@ -14,6 +14,9 @@ pub mod model;
 pub mod speech;
 pub mod vocoder;
 
+#[cfg(feature = "verif-hooks")]
+pub mod verif;
+
 pub use engine::*;
 
 #[cfg(test)]
